@@ -39,7 +39,9 @@ int Parse02d(const char* p) {
   if (const char* ap = std::strchr(kDigits, *p)) {
     int v = static_cast<int>(ap - kDigits);
     if (const char* bp = std::strchr(kDigits, *++p)) {
-      return (v * 10) + static_cast<int>(bp - kDigits);
+      const int w = static_cast<int>(bp - kDigits);
+      // Note: strchr() also matches the terminating NUL, which is not a digit.
+      if (v < 10 && w < 10) return (v * 10) + w;
     }
   }
   return -1;
